@@ -141,6 +141,30 @@ static struct websocket *g_ws;
 static struct http_connection *g_conn_for_report;
 static unsigned g_cbmask = 3;
 
+/* several connections side by side in one process ("use <k>" selects the one the following commands talk to): whatever one
+ * connection's compression leaves behind in the process is there when the next one sends */
+#define SLOTS 4
+static struct slot {
+	struct mem_reader *rd;
+	struct websocket *ws;
+	struct http_connection *conn;
+	unsigned cbmask;
+} g_slots[SLOTS];
+static unsigned g_cur;
+
+static void use_slot(unsigned k)
+{
+	g_slots[g_cur].rd = g_rd;
+	g_slots[g_cur].ws = g_ws;
+	g_slots[g_cur].conn = g_conn_for_report;
+	g_slots[g_cur].cbmask = g_cbmask;
+	g_cur = k % SLOTS;
+	g_rd = g_slots[g_cur].rd;
+	g_ws = g_slots[g_cur].ws;
+	g_conn_for_report = g_slots[g_cur].conn;
+	g_cbmask = g_slots[g_cur].cbmask ? g_slots[g_cur].cbmask : 3;
+}
+
 #define WRITE_CAP ((size_t)64 << 20)
 
 static int rd_read_exactly(void *this_ptr, size_t num, read_handler handler, void *handler_context)
@@ -634,12 +658,18 @@ int main(void)
 				ev_simple("send_ignored", NULL);
 			}
 			free(b);
+		} else if (strncmp(line, "use ", 4) == 0) {
+			use_slot((unsigned)strtoul(line + 4, NULL, 10));
+			ev_simple("using", NULL);
 		} else if (strcmp(line, "state") == 0) {
 			cmd_state();
 		} else if (strcmp(line, "shutdown") == 0) {
 			shutdown_conn();
 		} else if (strcmp(line, "quit") == 0) {
-			shutdown_conn();
+			for (unsigned k = 0; k < SLOTS; k++) {
+				use_slot(k);
+				shutdown_conn();
+			}
 			done();
 			break;
 		} else {
@@ -647,7 +677,10 @@ int main(void)
 		}
 		done();
 	}
-	shutdown_conn();
+	for (unsigned k = 0; k < SLOTS; k++) {
+		use_slot(k);
+		shutdown_conn();
+	}
 	free(line);
 	close_random();
 	return 0;
